@@ -9,6 +9,7 @@ pattern accessors) used by several rules.
 from __future__ import annotations
 
 from . import terms as T
+from .interp import INLINED as _INLINED
 from .interp import (
     BoundMethod, ClassV, Closure, Interp, PartialV, PrimV, RaiseSignal, Rec, WrappedFn, ite,  # noqa: F401
 )
@@ -68,6 +69,7 @@ class Session:
             "primitive_calls": self.calls_primitive,
             "opaque_calls": self.calls_opaque,
             "distinct_primitives": len(self.prims),
+            "functions_interpreted": sorted(q for q in _INLINED if "<lambda>" not in q),
         }
 
 
